@@ -832,7 +832,7 @@ class Quaternion(Object3d):
         >>> np.rad2deg(ax.angle)
         array([120.])
         """
-        axes, angles = _conversions.qu2ax(self.unit.data)
+        axes, angles = _conversions.qu2ax(_positive_scalar(self.unit.data))
         ax = AxAngle(axes * angles)
         return ax
 
@@ -900,7 +900,7 @@ class Quaternion(Object3d):
             ro = Q.axis * np.tan(self.angle / 2)
             ro = Rodrigues(ro)
         else:
-            axes, angles = _conversions.qu2ax(Q.data)
+            axes, angles = _conversions.qu2ax(_positive_scalar(Q.data))
             axes_angles = np.concatenate((axes, angles), axis=-1)
             ro = _conversions.ax2ro(axes_angles)
         return ro
@@ -1238,6 +1238,15 @@ class Quaternion(Object3d):
         new_chunks = tuple(chunks1[:-1]) + tuple(chunks2[:-1]) + (-1,)
 
         return out.rechunk(new_chunks)
+
+
+def _positive_scalar(qu: np.ndarray) -> np.ndarray:
+    """Return the quaternions with their sign chosen so that the scalar
+    part is non-negative. A quaternion and its negative represent the
+    same rotation, but the conversion kernels assume a rotation angle
+    in [0, pi], i.e. a non-negative scalar part.
+    """
+    return np.where(qu[..., :1] < 0, -qu, qu)
 
 
 # ------------------- Numba accelerated functions -------------------- #
